@@ -414,12 +414,13 @@ pub fn gen(tier: Tier, r: &mut Rng, emit: &mut dyn FnMut(String)) {
             emit(format!("C31 conv {a} {}", hex_bytes(&bytes)));
         }
     }
-    let n_conv = if q { 3000 } else { 100_000 };
+    let n_conv = if q { 3000 } else { 40_000 };
     for i in 0..n_conv {
-        let len = match r.below(8) {
-            0 => 8 * r.usize_below(80),
-            1 => 8 * r.usize_below(80) + 1 + r.usize_below(7),
-            2 => *r.pick(&[4096usize, 4095, 4097, 4104, 65536]),
+        // large slices are rare: the compiled model costs ~25 µs per byte
+        let len = match r.below(64) {
+            0..=7 => 8 * r.usize_below(80),
+            8..=15 => 8 * r.usize_below(80) + 1 + r.usize_below(7),
+            16 => if r.chance(1, 20) { 65536 } else { *r.pick(&[4096usize, 4095, 4097, 4104]) },
             _ => r.usize_below(72),
         };
         let len = if q { len.min(4104) } else { len };
@@ -436,10 +437,10 @@ pub fn gen(tier: Tier, r: &mut Rng, emit: &mut dyn FnMut(String)) {
         emit(format!("C31 conv {a} {}", hex_bytes(&bytes)));
     }
     // --- w2b: word vectors
-    let n_w = if q { 3000 } else { 100_000 };
+    let n_w = if q { 3000 } else { 40_000 };
     emit("C31 w2b -".to_string());
     for _ in 0..n_w {
-        let n = if r.chance(1, 30) { r.usize_below(600) } else { r.usize_below(20) };
+        let n = if r.chance(1, 100) { r.usize_below(600) } else { r.usize_below(20) };
         let ws: Vec<u64> = (0..n).map(|_| gen_word(r)).collect();
         emit(format!("C31 w2b {}", hex_words(&ws)));
     }
